@@ -72,6 +72,8 @@ type wrapFE struct {
 	region   termemu.Region
 	live     bool // record callbacks
 	cutSeen  bool // a rendered range cut a wide glyph
+	pieces   bool // grapheme mode: at some callback a row held text that segments into other cells (KF-C11-grapheme-pieces)
+	mode     termemu.TextReadMode
 }
 
 func clamp(v, lo, hi int) int {
@@ -111,6 +113,16 @@ func (f *wrapFE) dump(y, y2 int, rc termemu.Region, withSpans bool) {
 	for yy := y; yy < y2 && yy < len(s.Rows); yy++ {
 		writeRow(f.cases, yy, s.Rows[yy])
 	}
+	if f.mode == termemu.TextReadModeGrapheme && !f.pieces {
+		if s.WidthMismatches > 0 || !s.RowsOK {
+			f.pieces = true
+		}
+		for yy := 0; yy < len(s.Rows) && !f.pieces; yy++ {
+			if !rowResegOK(s.Rows[yy], f.mode) {
+				f.pieces = true
+			}
+		}
+	}
 	if !withSpans {
 		return
 	}
@@ -121,7 +133,15 @@ func (f *wrapFE) dump(y, y2 int, rc termemu.Region, withSpans bool) {
 	}
 	t := f.vt.Terminal()
 	for yy := rc.Y; yy < rc.Y2; yy++ {
-		if at(s, rc.X, yy).Width == 0 || (rc.X2 < s.W && at(s, rc.X2, yy).Width == 0) {
+		// A rendered range that cuts a wide glyph is the known finding KF-C11-cut-glyph only where the cut is not the
+		// terminal's own doing: at an edge of the attach region, or - span buffer - at the left edge of a region
+		// announced for a write that started on the second half of a wide glyph (sanctioned, KF-second-half).  The
+		// right edge of an announced region is always a glyph boundary (C10_primitives: the blanked tail is announced).
+		ar := f.region
+		ar.X, ar.X2 = clamp(ar.X, 0, s.W), clamp(ar.X2, 0, s.W)
+		leftCut := at(s, rc.X, yy).Width == 0
+		rightCut := rc.X2 < s.W && at(s, rc.X2, yy).Width == 0
+		if (leftCut && (rc.X == ar.X || !s.Grid)) || (rightCut && rc.X2 == ar.X2) {
 			f.cutSeen = true
 		}
 		l := t.StyledLine(rc.X, rc.X2-rc.X, yy)
@@ -210,6 +230,13 @@ var narrowMB = []string{"é", "λ", "Ж", "€"}
 func genText(r *rng, wide, comb bool) string {
 	var sb strings.Builder
 	n := 1 + r.n(6)
+	if comb && r.chance(1, 5) {
+		// a mark, joiner or selector at the start of an item: in grapheme mode it reaches the reader apart from its
+		// base (an escape sequence or a read boundary lies between) and is merged into the character left of the cursor
+		// (a joiner after a character that is not an emoji leaves a cell whose text segments into two clusters - the
+		// known finding KF-C11-grapheme-pieces - so it is the rarest choice)
+		sb.WriteString([]string{"\u0301", "\u0308", "\u0301", "\ufe0f", "\u0301\u0302", "\u0323", "\u0308\u0301", "\u0300", "\u0302", "\u200d\U0001f4bb"}[r.n(10)])
+	}
 	for i := 0; i < n; i++ {
 		switch {
 		case wide && r.chance(1, 4):
@@ -338,6 +365,7 @@ type stats struct {
 	outsideOK, outsideBad        int
 	cursorOK, cursorBad          int
 	cellsBadCut, cellsBadNoCut   int
+	cellsBadPieces, outsidePieces int // grapheme mode: a row of the inner screen holds text that segments into other cells (KF-C11-grapheme-pieces)
 	outsideBadCut, outsideNoCut  int
 	cursorBadAttachShow          int
 	cursorEmptyRegion            int
@@ -345,6 +373,56 @@ type stats struct {
 	detachedSteps, detachedQuiet int
 	witnesses                    []string
 	wcount                       map[string]int
+}
+
+// rowResegOK: every maximal run of equally styled cells of the row, read as one text, segments into exactly
+// those cells (the executable counterpart of row_reseg_ok in Model/GTerm.v).
+func rowResegOK(row []termemu.VerifCell, mode termemu.TextReadMode) bool {
+	type cw struct{ n, w int }
+	check := func(text []byte, want []cw) bool {
+		var got []cw
+		state := -1
+		for len(text) > 0 {
+			_, n, w, ns, ok := termemu.VerifStepCluster(text, state, mode)
+			if !ok || n <= 0 {
+				return false
+			}
+			if w < 1 {
+				if len(got) == 0 {
+					return false
+				}
+				got[len(got)-1].n += n
+			} else {
+				got = append(got, cw{n, w})
+			}
+			text = text[n:]
+			state = ns
+		}
+		if len(got) != len(want) {
+			return false
+		}
+		for i := range got {
+			if got[i] != want[i] {
+				return false
+			}
+		}
+		return true
+	}
+	var text []byte
+	var want []cw
+	for i, c := range row {
+		if i > 0 && (c.FG != row[i-1].FG || c.BG != row[i-1].BG || c.UL != row[i-1].UL) {
+			if !check(text, want) {
+				return false
+			}
+			text, want = nil, nil
+		}
+		text = append(text, c.Text...)
+		if c.Width > 0 {
+			want = append(want, cw{len(c.Text), c.Width})
+		}
+	}
+	return check(text, want)
 }
 
 func (s *stats) witness(format string, a ...interface{}) {
@@ -411,7 +489,7 @@ func runCase(id string, seed uint64, grid bool, mode int, nops int, wide, comb b
 	}
 	rec := &recorder{}
 	fe := termemu.NewTTYFrontend(nil, rec)
-	wf := &wrapFE{fe: fe, cases: cases}
+	wf := &wrapFE{fe: fe, cases: cases, mode: tm}
 	be := &feedBackend{}
 	vt := termemu.VerifNew(wf, be, tm, grid, false)
 	wf.vt = vt
@@ -452,6 +530,7 @@ func runCase(id string, seed uint64, grid bool, mode int, nops int, wide, comb b
 	focused := true
 	everAttached := false
 	cutSince := false // a glyph was cut by the region edge at some step since the last Attach
+	piecesSince := false // grapheme mode: some row of the inner screen held text that segments into other cells
 	for i, o := range ops {
 		st.steps++
 		switch o.kind {
@@ -474,6 +553,8 @@ func runCase(id string, seed uint64, grid bool, mode int, nops int, wide, comb b
 			// the outer terminal starts from the prefill again
 			feedAll(outer, obe, prefill(ow, oh))
 			wf.cutSeen = false
+			wf.pieces = false
+			piecesSince = false
 			vt.T.Lock()
 			wf.dump(0, h, o.r, true)
 			vt.T.Unlock()
@@ -575,12 +656,28 @@ func runCase(id string, seed uint64, grid bool, mode int, nops int, wide, comb b
 		}
 		cutSince = cutSince || cut || wf.cutSeen
 		cut = cutSince
+		piecesSince = piecesSince || wf.pieces
+		if mode == 1 && !piecesSince && (in.WidthMismatches > 0 || !in.RowsOK) {
+			// span buffer: the cells of the snapshot are the stored text segmented again; a run that does not fill
+			// the width it claims is the same situation seen from the other side
+			piecesSince = true
+		}
+		if mode == 1 && !piecesSince {
+			for y := 0; y < len(in.Rows); y++ {
+				if !rowResegOK(in.Rows[y], tm) {
+					piecesSince = true
+					break
+				}
+			}
+		}
 		if badIn == 0 {
 			st.cellsOK++
 		} else {
 			st.cellsBad++
 			if cut {
 				st.cellsBadCut++
+			} else if piecesSince {
+				st.cellsBadPieces++
 			} else {
 				st.cellsBadNoCut++
 				st.witness("%s op %d (grid=%v): inside region %v: %s", id, i, grid, wf.region, firstIn)
@@ -592,6 +689,8 @@ func runCase(id string, seed uint64, grid bool, mode int, nops int, wide, comb b
 			st.outsideBad++
 			if cut {
 				st.outsideBadCut++
+			} else if piecesSince {
+				st.outsidePieces++
 			} else {
 				st.outsideNoCut++
 				st.witness("%s op %d (grid=%v): outside region %v: %s", id, i, grid, wf.region, firstOut)
@@ -668,6 +767,7 @@ func main() {
 		fmt.Printf("E2E %s mode=%d wide=%v comb=%v: steps=%d attached=%d\n", kind, *mode, *wide, *comb, st.steps, st.attachedSteps)
 		fmt.Printf("  inside-region cells equal: ok=%d bad=%d (bad with a glyph cut by the region edge=%d, other=%d)\n", st.cellsOK, st.cellsBad, st.cellsBadCut, st.cellsBadNoCut)
 		fmt.Printf("  outside-region cells untouched: ok=%d bad=%d (cut=%d, other=%d)\n", st.outsideOK, st.outsideBad, st.outsideBadCut, st.outsideNoCut)
+		fmt.Printf("  grapheme pieces (a row whose text segments into other cells): inside=%d outside=%d\n", st.cellsBadPieces, st.outsidePieces)
 		fmt.Printf("  outer cursor as specified: ok=%d bad=%d (bad explained by Attach forcing showCur=%d; unfocused steps not checked=%d; attach region empty after clamping=%d)\n", st.cursorOK, st.cursorBad, st.cursorBadAttachShow, st.cursorUnfocused, st.cursorEmptyRegion)
 		fmt.Printf("  detached steps=%d silent=%d\n", st.detachedSteps, st.detachedQuiet)
 		for _, wmsg := range st.witnesses {
